@@ -81,6 +81,64 @@ def conjuncts(g):
     return [g]
 
 
+_SYM_CACHE = {}
+_ALLOCISH = frozenset()
+_Q_CACHE = {}
+
+
+def _has_quantifier(t):
+    k = t.get_id()
+    c = _Q_CACHE.get(k)
+    if c is not None and c[0].eq(t): return c[1]
+    seen, todo, r = set(), [t], False
+    while todo:
+        x = todo.pop()
+        if x.get_id() in seen: continue
+        seen.add(x.get_id())
+        if z3.is_quantifier(x): r = True; break
+        if z3.is_app(x): todo.extend(x.children())
+    _Q_CACHE[k] = (t, r)
+    return r
+
+
+def _symbols(t):
+    """names of the uninterpreted constants / functions of a formula (cached per AST)"""
+    k = t.get_id()
+    c = _SYM_CACHE.get(k)
+    if c is not None and c[0].eq(t): return c[1]
+    out, seen, todo = set(), set(), [t]
+    while todo:
+        x = todo.pop()
+        if x.get_id() in seen: continue
+        seen.add(x.get_id())
+        if z3.is_quantifier(x): todo.append(x.body()); continue
+        if z3.is_app(x):
+            if x.decl().kind() == z3.Z3_OP_UNINTERPRETED: out.add(x.decl().name())
+            todo.extend(x.children())
+    out = frozenset(out)
+    _SYM_CACHE[k] = (t, out)
+    return out
+
+
+def relevant_hyps(hyps, goal, rounds=4, rare=10):
+    """A subset of the hypotheses connected to the goal through shared symbols (first round: any symbol; later rounds: only
+    symbols that occur in few hypotheses).  Proving from a subset is sound; it is only tried first because it is fast."""
+    syms = [_symbols(h) for h in hyps]
+    freq = {}
+    for ss in syms:
+        for x in ss: freq[x] = freq.get(x, 0) + 1
+    frontier = set(_symbols(goal)); chosen = [False] * len(hyps)
+    for rnd in range(rounds):
+        new = set()
+        for i, ss in enumerate(syms):
+            if chosen[i]: continue
+            if any((x in frontier) and (rnd == 0 or freq[x] <= rare) for x in ss):
+                chosen[i] = True; new |= ss
+        if not new: break
+        frontier |= new
+    return [h for h, c in zip(hyps, chosen) if c]
+
+
 def prove_one(hyps, goal, quick, retry=False):
     """returns (status, backend, model|None, solver).
     Budgets are z3 resource limits (deterministic, independent of machine load) with a generous wall-clock backstop."""
@@ -89,12 +147,29 @@ def prove_one(hyps, goal, quick, retry=False):
     elif quick: budgets = [(False, 5 * M, 20000), (True, 8 * M, 30000)]
     else: budgets = [(False, 70 * M, 240000), (True, 80 * M, 240000)]
     last = None
+    if len(hyps) > 40:
+        # cheap first attempts from subsets of the hypotheses (sound: a proof from fewer hypotheses is a proof)
+        ground = [h for h in hyps if not _has_quantifier(h) or _symbols(h) <= _ALLOCISH or all(x.startswith(("alloc", "H0!alloc", "r!")) for x in _symbols(h))]
+        for sub in (ground, relevant_hyps(hyps, goal)):
+            if len(sub) < len(hyps):
+                s0 = z3.Solver(); s0.set("timeout", 15000); s0.set("rlimit", 3 * M); s0.set("smt.mbqi", False)
+                s0.add(*sub); s0.add(z3.Not(goal))
+                if s0.check() == z3.unsat: return "proved", "z3", None, s0
     for mbqi, rlimit, tmo in budgets:
         s = z3.Solver(); s.set("timeout", tmo); s.set("rlimit", rlimit); s.set("smt.mbqi", mbqi)
         s.add(*hyps); s.add(z3.Not(goal))
         r = s.check(); last = s
         if r == z3.unsat: return "proved", "z3", None, s
-        if r == z3.sat and mbqi: return "refuted", "z3", s.model(), s     # models found without MBQI may ignore quantifiers
+        if r == z3.sat and mbqi:      # models found without MBQI may ignore quantifiers
+            big = s.model()
+            # prefer a small counter-model (replayable on the real code) when there is one
+            lens = _collect_len_terms(list(hyps) + [goal])
+            for bound in (2, 3):
+                s3 = z3.Solver(); s3.set("timeout", 10000); s3.set("rlimit", 6 * M)
+                s3.add(*hyps); s3.add(z3.Not(goal)); s3.add(*[l <= bound for l in lens])
+                if s3.check() == z3.sat:
+                    return "refuted", "z3+small-model(len<=%d)" % bound, s3.model(), s3
+            return "refuted", "z3", big, s
     if not quick or retry:
         r2, _ = check_cvc5(last, 60000)
         if r2 == "unsat": return "proved", "cvc5", None, last
@@ -105,15 +180,139 @@ def prove_one(hyps, goal, quick, retry=False):
         s3.add(*hyps); s3.add(z3.Not(goal)); s3.add(*[l <= bound for l in lens])
         if s3.check() == z3.sat:
             return "refuted", "z3-bounded(len<=%d)" % bound, s3.model(), s3
+    # windowed search: integer quantifiers expanded over a small window.  Such a model is only a CANDIDATE (facts outside the
+    # window are ignored); it is reported as a counterexample only if its replay on the real code reproduces (runner)
+    try:
+        bound = 3
+        fs = [expand_int_quantifiers(f, range(-1, bound + 3)) for f in list(hyps) + [z3.Not(goal)]]
+        s4 = z3.Solver(); s4.set("timeout", 20000); s4.set("rlimit", 6 * M)
+        s4.add(*fs); s4.add(*[l <= bound for l in lens])
+        if s4.check() == z3.sat:
+            return "candidate", "z3-window(len<=%d)" % bound, s4.model(), last
+    except Exception:
+        pass
     return "undecided", "z3+cvc5" if (not quick or retry) else "z3", None, last
+
+
+def expand_int_quantifiers(f, window, _cache=None, _budget=None):
+    """Quantifiers whose bound variables are all integers become finite conjunctions / disjunctions over `window`."""
+    import itertools
+    cache = {} if _cache is None else _cache
+    budget = [20000] if _budget is None else _budget
+    k = f.get_id()
+    if k in cache and cache[k][0].eq(f): return cache[k][1]
+    if z3.is_quantifier(f) and not f.is_lambda() and all(f.var_sort(i) == z3.IntSort() for i in range(f.num_vars())) \
+            and len(window) ** f.num_vars() <= 400:
+        n = f.num_vars(); insts = []
+        for vals in itertools.product(window, repeat=n):
+            budget[0] -= 1
+            if budget[0] < 0: raise RuntimeError("expansion budget")
+            # de Bruijn: variable index 0 is the LAST bound variable
+            inst = z3.substitute_vars(f.body(), *[z3.IntVal(v) for v in reversed(vals)])
+            insts.append(expand_int_quantifiers(inst, window, cache, budget))
+        r = z3.And(*insts) if f.is_forall() else z3.Or(*insts)
+    elif z3.is_app(f) and f.num_args() > 0:
+        ch = [expand_int_quantifiers(c, window, cache, budget) for c in f.children()]
+        r = f if all(a.eq(b) for a, b in zip(ch, f.children())) else f.decl()(*ch)
+    else:
+        r = f
+    cache[k] = (f, r)
+    return r
+
+
+# ---------------------------------------------------------------------------------------------- proof hints
+# A hint names, for one conjunct of one obligation, a small subset of the quantified hypotheses from which it was proved
+# before (found by greedy deletion, bin/mkhints).  A proof from a subset of the CURRENT hypotheses is a proof, so using a
+# hint is sound whatever it contains; a stale hint just fails and the full hypothesis set is used as before.
+_HINTS = None
+_HKEY_CACHE = {}
+
+
+def hint_key(h):
+    k = h.get_id()
+    c = _HKEY_CACHE.get(k)
+    if c is not None and c[0].eq(h): return c[1]
+    import hashlib
+    txt = re.sub(r"![0-9]+", "!", h.sexpr())        # fresh-name counters shift with unrelated edits
+    v = hashlib.sha1(txt.encode()).hexdigest()[:10]
+    _HKEY_CACHE[k] = (h, v)
+    return v
+
+
+def load_hints():
+    global _HINTS
+    if _HINTS is None:
+        import os, json
+        p = os.path.join(os.path.dirname(os.path.dirname(os.path.abspath(__file__))), "proof_hints.json")
+        try: _HINTS = json.load(open(p))
+        except Exception: _HINTS = {}
+    return _HINTS
+
+
+def try_hint(hyps, goal, keys):
+    keys = set(keys)
+    sub = [h for h in hyps if not _has_quantifier(h) or hint_key(h) in keys]
+    if len(sub) == len(hyps): return None
+    s0 = z3.Solver(); s0.set("timeout", 30000); s0.set("rlimit", 10 * 1000000); s0.set("smt.mbqi", False)
+    s0.add(*sub); s0.add(z3.Not(goal))
+    return s0 if s0.check() == z3.unsat else None
+
+
+def minimise(hyps, goal, t_proof, deadline_s=600):
+    """Greedy (chunked) deletion of quantified hypotheses; returns the hint keys of a subset that still proves the goal
+    quickly, or None."""
+    M = 1000000
+    qs = [h for h in hyps if _has_quantifier(h)]
+    gr = [h for h in hyps if not _has_quantifier(h)]
+    t_end = time.time() + deadline_s
+    def ok(sub, tmo):
+        s = z3.Solver(); s.set("timeout", int(tmo * 1000)); s.set("rlimit", 40 * M); s.set("smt.mbqi", False)
+        s.add(*gr); s.add(*sub); s.add(z3.Not(goal))
+        return s.check() == z3.unsat
+    keep = list(qs)
+    tmo = min(60.0, max(4.0, 1.5 * t_proof))
+    chunk = max(1, len(keep) // 4)
+    proved_once = False
+    while chunk >= 1 and time.time() < t_end:
+        i = 0
+        while i < len(keep) and time.time() < t_end:
+            trial = keep[:i] + keep[i + chunk:]
+            if ok(trial, tmo):
+                keep = trial; proved_once = True; tmo = min(tmo, 8.0)
+            else:
+                i += chunk
+        chunk //= 2
+    if not proved_once: return None
+    if not ok(keep, 10.0): return None
+    return sorted({hint_key(h) for h in keep})
 
 
 def discharge(ob, quick=True, retry=False):
     """ob: dict with hyps, goal.  The goal is split into its conjuncts, each proved separately."""
+    import os
     t_all = time.time()
     status, backends = "proved", set()
-    for g in conjuncts(ob["goal"]):
+    hints = load_hints().get(ob.get("id") or "", {}) if ob.get("id") else {}
+    mk = os.environ.get("PYVC_MKHINTS")
+    for ci, g in enumerate(conjuncts(ob["goal"])):
+        hk = hints.get(str(ci))
+        if hk is not None and not mk:
+            s = try_hint(ob["hyps"], g, hk)
+            if s is not None:
+                backends.add("z3(hint)"); continue
+        t_c = time.time()
         st, be, model, s = prove_one(ob["hyps"], g, quick, retry)
+        t_c = time.time() - t_c
+        if mk and st == "proved" and (t_c > float(mk) or retry):
+            hk2 = minimise(ob["hyps"], g, t_c)
+            if hk2 is not None: ob.setdefault("hint_out", {})[str(ci)] = hk2
+        elif st == "undecided" and (retry or mk or not quick):
+            # last resort: search for a subset of the quantified hypotheses from which the goal follows quickly (the full
+            # set can drown the instantiation heuristics); a proof from a subset is a proof
+            hk2 = minimise(ob["hyps"], g, 4.0, deadline_s=(600 if mk else 150))
+            if hk2 is not None:
+                st, be = "proved", "z3(subset-search)"
+                if mk: ob.setdefault("hint_out", {})[str(ci)] = hk2
         backends.add(be)
         if st == "proved":
             if not quick and not retry:
@@ -126,6 +325,8 @@ def discharge(ob, quick=True, retry=False):
         if st == "refuted":
             status = "refuted"; ob["model"] = model_text(model); ob["_model"] = model; ob["failed_conjunct"] = str(g)[:2000]
             break
+        if st == "candidate":
+            ob["_model"] = model; ob["candidate_model"] = model_text(model)
         status = "undecided"; ob["failed_conjunct"] = str(g)[:2000]
     ob["status"] = status
     ob["backend"] = "+".join(sorted(backends))
